@@ -4,7 +4,9 @@ Tie: the Lean definitions the theorems are about are GENERATED from /repo's sour
 (translator/py2lean.py); this harness validates the translation by evaluating every generated definition
 at Float in the model driver against the Python function on random and boundary points.
 Oracle (implementation side): monotone density, check values, identical copies, odd / zero-at-neutral /
-monotone sinking speed, light bounds, band continuity, exp decay, swimming directions in one-update runs."""
+monotone sinking speed, light bounds, band continuity, exp decay, swimming directions in one-update runs and at
+every step of histories of one IBM object whose water, clock and particles change between the updates (there also:
+same result as a fresh IBM object on the same state)."""
 import math, importlib, datetime
 import numpy as np
 from . import ibmrun, c05
@@ -24,12 +26,25 @@ RULE = ("translator validation: every generated formula on ~300 random + boundar
         "init_larvae_weight) and overrides with the value 0 (light; swim_speed: passive larvae must not move; min_depth); "
         "shrimp judged after its (recorded) mixing step for every stage and once per case through "
         "the `state['time']` fallback (state without `timestamp`); light oracle also at the sub-solar / anti-solar "
-        "points. Non-trivial: every evaluated point; distinct by function and argument tuple.")
+        "points. Histories of ONE IBM object in a changing world (egg, larvae, saithe, salmon_lice, shrimp; 30 per module, "
+        "thorough 500; 3..8 updates, thorough up to 24; real State ~70% / the repository tests' stub state ~30%, shrimp stub "
+        "also with `time` instead of `timestamp`; 1..6 particles, mixing off in ~70%, egg buoyancies within 0 / +-0.02 .. "
+        "+-3 salinity units of the ambient salinity, water that also varies horizontally): between two updates the "
+        "temperature (-2..40) and / or the salinity (0..42, incl. the lice thresholds) of the water and its "
+        "stratification change, the clock advances by dt or jumps to any other time of the year, the tracker stand-in "
+        "moves particles (x, y +-1.5 cells, z up to +-30 m inside the band), particles are removed / released with a "
+        "change of the count, or removed and the same number released (one or all: the array slots change owner at "
+        "constant count), or nothing but the water changes (same particles, same count); every step judged by the "
+        "clauses above, eggs also from the stub water itself, and against a fresh IBM object on a copy of the state with "
+        "the same draws. Non-trivial: every evaluated point; distinct by function and argument tuple.")
 ASSUMPTIONS = ["values downstream of exp/log/sin/cos/arcsin/pow compared with relative tolerance 1e-9 (numpy SIMD vs libm)",
                "float-only caveat not modelled: arcsin of a rounding overshoot 1+ulp (probed at the sub-solar and "
                "anti-solar points and their floating-point neighbours by the light oracle)",
                "a louse's salinity tolerance is the documented 28 - 8r (copepodid) / 32 - 2r (nauplius) of its recorded "
                "uniform draw r; the r-independent clauses (below 20 / 30: down, from 28 / 32: not down) are judged separately",
+               "egg_buoy is a salinity equivalent (ladim.yaml of egg / saithe / larvae): the egg has the density of water of "
+               "that salinity at the ambient temperature, so 'lighter than the water' is egg_buoy < ambient salinity (density "
+               "increases with salinity: clause of this property, judged by the density oracle)",
                "sun height of surface_light is not returned by the code: it is observed through the light value "
                "(linear twilight bands; day band proportional to sin(height))"]
 
@@ -600,6 +615,406 @@ def shrimp_time_fallback(ctx, gen):
                    % (res["after"]["z"].tolist(), res2["after"]["z"].tolist()), dict(case=ibmrun.case_summary(case)))
 
 
+# ------------------------------------------------------------------- histories of ONE IBM object in a changing world
+# The formulas of the property are functions of the water, the light and the particle the update is called with NOW.
+# LADiM calls `update_ibm` of one IBM object once per time step for the whole simulation: between two calls the
+# particles have drifted into other water (temperature, salinity), the clock has advanced (light), particles have
+# been removed and others released (the array slots change owner, with or without a change of the particle count).
+# Every clause must hold at every step of such a history, and nothing but the state and the environment of the
+# current call may enter: a fresh IBM object given the same state, environment and draws must give the same result.
+HIST_MODULES = ("egg", "larvae", "saithe", "salmon_lice", "shrimp")
+CASE_TO_STATE = dict(x="X", y="Y", z="Z", age="age", buoy="egg_buoy", weight="weight", days="days", super="super",
+                     stage="stage", q="depth_quantile", direction="direction")
+T_VALUES = [-2.0, -1.0, 0.0, 2.0, 4.0, 6.0, 6.5, 8.0, 9.0, 12.0, 14.0, 18.0, 25.0, 32.0, 40.0]
+S_VALUES = [0.0, 5.0, 15.0, 19.9, 20.0, 24.0, 27.9, 28.0, 29.0, 30.0, 31.0, 31.9, 32.0, 33.0, 34.0, 34.5, 35.0, 36.0, 38.0, 42.0]
+
+
+def _is_stub(state):
+    from .stubs import NumState
+    return isinstance(state, NumState)
+
+
+def state_arrays(state):
+    """{variable: per-particle array} of the real State / of the stub state"""
+    d = state.__dict__["_d"] if _is_stub(state) else state._data
+    return {k: v for k, v in d.items() if isinstance(v, np.ndarray) and v.ndim == 1}
+
+
+def clone_state(state):
+    """an independent copy of a state (same container type, copied arrays, same dt / timestep / timestamp)"""
+    from .stubs import NumState
+    if _is_stub(state):
+        return NumState(**{k: (v.copy() if isinstance(v, np.ndarray) else v) for k, v in state.__dict__["_d"].items()})
+    from ladim.state import State
+    s = State()
+    s._data = {k: np.array(v).copy() for k, v in state._data.items()}
+    s._num_released = state._num_released
+    s._varnames = set(state._varnames)
+    for k in ("dt", "timestep", "timestamp"):
+        if k in state.__dict__:
+            setattr(s, k, state.__dict__[k])
+    return s
+
+
+def hist_state(name, case, stub, time_key="timestamp"):
+    """the state of step 0: the real LADiM State or the stub state of the repository's own tests (item and attribute
+    access, arrays keep their dtype), with the variables the module's ladim.yaml lists"""
+    from .stubs import NumState, real_state
+    n = len(case["x"])
+    arr = dict(X=case["x"].copy(), Y=case["y"].copy(), Z=case["z"].copy(), age=case["age"].copy(),
+               temp=np.zeros(n), salt=np.zeros(n))
+    if name == "egg":
+        arr.update(egg_buoy=case["buoy"].copy()); dt = ibmrun.state_dt(case)
+    elif name == "salmon_lice":
+        arr.update(days=case["days"].copy(), super=case["super"].copy()); dt = case["sdt"]
+    elif name in ("larvae", "saithe"):
+        direction = case["direction"].copy() if (case.get("spread") and "direction" in case) else np.zeros(n)
+        arr.update(weight=case["weight"].copy(), egg_buoy=case["buoy"].copy(), direction=direction); dt = case["sdt"]
+    else:
+        arr.update(stage=case["stage"].copy(), depth_quantile=case["q"].copy(), length=np.zeros(n)); dt = ibmrun.state_dt(case)
+    if stub:
+        kw = dict(arr, alive=np.ones(n, dtype=bool), active=np.ones(n, dtype=bool), pid=np.arange(n), dt=dt, timestep=0,
+                  released=n)
+        if name != "egg":
+            kw[time_key] = case["ts"]
+        return NumState(**kw)
+    return real_state(dt=dt, timestamp=None if name == "egg" else case["ts"], **arr)
+
+
+def st_remove(state, drop):
+    if _is_stub(state):
+        d = state.__dict__["_d"]
+        for k, v in list(d.items()):
+            if isinstance(v, np.ndarray) and v.ndim == 1 and len(v) == len(drop):
+                d[k] = v[~drop].copy()
+    else:
+        state.remove(drop)
+
+
+def st_append(state, new):
+    """release particles: `new` maps variable names to arrays; variables not given start at 0 (as State.append has it)"""
+    if not _is_stub(state):
+        state.append({k: np.asarray(v) for k, v in new.items()})
+        return
+    d = state.__dict__["_d"]
+    m = len(next(iter(new.values())))
+    n = len(d["X"])
+    for k, v in list(d.items()):
+        if not (isinstance(v, np.ndarray) and v.ndim == 1 and len(v) == n):
+            continue
+        if k in new:
+            add = np.asarray(new[k], dtype=v.dtype)
+        elif k == "pid":
+            add = np.arange(m) + d["released"]
+        elif k in ("alive", "active"):
+            add = np.ones(m, dtype=v.dtype)
+        else:
+            add = np.zeros(m, dtype=v.dtype)
+        d[k] = np.concatenate([v, add])
+    d["released"] = d["released"] + m
+
+
+def sync_case(case, state):
+    """the per-particle arrays of the case are those of the state (after an update / a move / a removal / a release)"""
+    c = dict(case)
+    for kc, ks in CASE_TO_STATE.items():
+        if kc in c and ks in state:
+            c[kc] = np.array(state[ks]).copy()
+    return c
+
+
+def z_band(name, case, is_egg=False):
+    """depth band in which the tracker stand-in and the releases of a history place particles"""
+    if name == "egg":
+        return 0.0, 199.9
+    if name == "salmon_lice":
+        return 0.0, 19.9
+    if name == "shrimp":
+        return 0.0, 80.0
+    if name == "saithe" and is_egg:
+        return 0.0, 199.9
+    return float(case["sp"]["min_depth"]), float(case["sp"]["max_depth"])
+
+
+def keep_in_quantifier(case, state):
+    """temperature in [-2, 40] and salinity in [0, 42] at every particle (the gradients of the stub fields are kept,
+    the offsets are shifted)"""
+    env = case["env"]
+    if not len(state["X"]):
+        return
+    for nm, off, lo, hi in (("temp", "t0", -2.0, 40.0), ("salt", "s0", 0.0, 42.0)):
+        v = env.field(state["X"], state["Y"], state["Z"], nm)
+        if float(np.min(v)) < lo:
+            setattr(env, off, getattr(env, off) + (lo - float(np.min(v))) + 1e-9)
+        elif float(np.max(v)) > hi:
+            setattr(env, off, getattr(env, off) - (float(np.max(v)) - hi) - 1e-9)
+
+
+def buoy_near(rng, S):
+    """an egg buoyancy (salinity equivalent) next to the salinity S of the water: neutral, slightly / clearly lighter
+    or denser (0.2 salinity units are about 0.15 kg/m3, the effect of one degree of temperature)"""
+    return max(0.0, S + rng.choice([0.0, 0.0, -0.02, 0.02, -0.1, 0.1, -0.2, 0.2, -0.5, 0.5, -1.0, 1.0, -3.0, 3.0]))
+
+
+def new_particles(rng, name, case, m):
+    """`m` particles as a release file would give them (variables of the module's ladim.yaml)"""
+    env = case["env"]
+    xs = np.array([rng.choice([5.0, rng.uniform(1, 19)]) for _ in range(m)])
+    ys = np.array([rng.choice([5.0, rng.uniform(1, 19)]) for _ in range(m)])
+    A = lambda f: np.array([float(f()) for _ in range(m)])
+    new = dict(X=xs, Y=ys)
+    if name == "egg":
+        new["Z"] = A(lambda: rng.uniform(0.0, 199.0))
+        new["age"] = A(lambda: rng.choice([0.0, rng.uniform(0, 100)]))
+    elif name == "salmon_lice":
+        new["Z"] = A(lambda: rng.choice([0.5, 5.0, rng.uniform(0.0, 19.9)]))
+        new["age"] = A(lambda: rng.choice([0.0, 0.0, 39.99, 40.0, 100.0, rng.uniform(0, 160)]))
+        new["days"] = np.zeros(m); new["super"] = A(lambda: rng.choice([1.0, 100.0]))
+    elif name in ("larvae", "saithe"):
+        hd = float(case["sp"]["hatch_day"])
+        new["age"] = A(lambda: rng.choice([0.0, 0.0, hd - 1e-9, hd + 1.0, rng.uniform(0, 2 * hd)]))
+        z = []
+        for i in range(m):
+            lo, hi = z_band(name, case, is_egg=new["age"][i] <= hd)
+            z.append(rng.choice([lo, hi, rng.uniform(lo, hi), rng.uniform(lo, hi)]))
+        new["Z"] = np.array(z)
+        new["weight"] = A(lambda: rng.choice([0.0, 0.093, 0.5, 5.0]))
+        new["direction"] = np.zeros(m)
+    else:
+        new["Z"] = A(lambda: rng.choice([0.0, 5.45, rng.uniform(0, 80)]))
+        new["stage"] = A(lambda: rng.choice([0.0, 0.0, 1.0, 2.5, 5.0, rng.uniform(1, 6)]))
+        new["depth_quantile"] = A(lambda: rng.choice([0.0, 0.0, 0.5, rng.uniform(0.001, 1)]))
+        new["age"] = A(lambda: rng.choice([0.0, rng.uniform(0, 50)]))
+    if name in ("egg", "larvae", "saithe"):
+        S = env.field(new["X"], new["Y"], new["Z"], "salt")
+        new["egg_buoy"] = np.array([rng.choice([buoy_near(rng, float(S[i])), buoy_near(rng, float(S[i])), 25.0, 31.0, 34.0, 36.0])
+                                    for i in range(m)])
+    return new
+
+
+def hist_case(ctx, rng, name, gens):
+    """step 0 of a history: a case of the module's generator (this check's own generators for the modules that have
+    one), 1..6 particles, mixing mostly off so that every step is judged, eggs next to neutral buoyancy, particles
+    spread over a grid whose water also varies horizontally"""
+    gen = gens.get(name, ibmrun.MODULES[name][0])
+    case = gen(rng, n=rng.randrange(1, 7))
+    n = len(case["x"])
+    env = case["env"]
+    if name == "egg":
+        case["x"] = np.array([rng.choice([5.0, rng.uniform(1, 19)]) for _ in range(n)])
+        case["y"] = np.array([rng.choice([5.0, rng.uniform(1, 19)]) for _ in range(n)])
+        case["z"] = np.array([rng.choice([rng.uniform(5, 195), rng.uniform(5, 195), 100.0, 0.5, 199.0]) for _ in range(n)])
+    if rng.random() < 0.7:
+        if name == "saithe":
+            case["force_normal"] = 0.0
+        elif name in ("egg", "salmon_lice", "larvae"):
+            case["D"] = 0.0
+    if rng.random() < 0.5:
+        env.tx = rng.choice([0.1, -0.1, 0.2]); ctx.branch("hist.%s.horizontal_temperature_gradient" % name)
+    if rng.random() < 0.5:
+        env.sx = rng.choice([0.05, -0.05, 0.1]); ctx.branch("hist.%s.horizontal_salinity_gradient" % name)
+    if rng.random() < 0.6:
+        env.s0 = rng.choice([30.0, 33.0, 34.0, 34.5, 35.0])
+    keep_in_quantifier(case, dict(X=case["x"], Y=case["y"], Z=case["z"]))
+    if "buoy" in case:
+        S = env.field(case["x"], case["y"], case["z"], "salt")
+        case["buoy"] = np.array([buoy_near(rng, float(S[i])) if rng.random() < 0.7 else float(case["buoy"][i]) for i in range(n)])
+    return case
+
+
+def world_changes(ctx, rng, name, case, state, log):
+    """what happens between two calls of `update_ibm`; returns the case of the next call"""
+    env = case["env"]
+    n = len(state["X"])
+    what = []
+    # -- the water: other temperature / salinity (the particles have drifted, the season advances), other stratification
+    r = rng.random()
+    if r < 0.55:
+        env.t0 = rng.choice(T_VALUES + [rng.uniform(-2, 40)]); what.append("t0=%r" % env.t0)
+        ctx.branch("hist.%s.temperature_changed" % name)
+    if rng.random() < 0.45:
+        env.s0 = rng.choice(S_VALUES + [rng.uniform(0, 42)]); what.append("s0=%r" % env.s0)
+        ctx.branch("hist.%s.salinity_changed" % name)
+    if rng.random() < 0.2:
+        env.tz = rng.choice([0.0, -0.01, -0.05, 0.02]); env.sz = rng.choice([0.0, 0.01, 0.03])
+        what.append("tz=%r sz=%r" % (env.tz, env.sz)); ctx.branch("hist.%s.stratification_changed" % name)
+    # -- the clock (light, day / night): one time step later, or any other time of the year
+    if name != "egg":
+        if rng.random() < 0.5:
+            ts = case["ts"] + np.timedelta64(int(case["dt"]), "s"); ctx.branch("hist.%s.clock_advanced_by_dt" % name)
+        else:
+            ts = when(rng); ctx.branch("hist.%s.other_time_of_year" % name)
+        case = dict(case, ts=ts)
+        if "time" in state:
+            state["time"] = ts
+        else:
+            state.timestamp = ts
+        what.append("time=%s" % ts)
+    # -- removals and releases: with a change of the particle count, or with the same count (slots change owner)
+    r = rng.random()
+    if n and r < 0.30:
+        k = n if rng.random() < 0.25 else 1
+        drop = np.zeros(n, bool)
+        drop[rng.sample(range(n), k)] = True
+        st_remove(state, drop)
+        st_append(state, new_particles(rng, name, case, k))
+        what.append("removed %r, released %d (same count)" % (np.flatnonzero(drop).tolist(), k))
+        ctx.branch("hist.%s.slots_change_owner_same_count" % name)
+    elif n >= 2 and r < 0.40:
+        drop = np.zeros(n, bool); drop[rng.randrange(n)] = True
+        st_remove(state, drop)
+        what.append("removed %r" % np.flatnonzero(drop).tolist()); ctx.branch("hist.%s.particle_removed" % name)
+    elif r < 0.50:
+        k = rng.choice([1, 1, 2])
+        st_append(state, new_particles(rng, name, case, k))
+        what.append("released %d" % k); ctx.branch("hist.%s.particle_released" % name)
+    else:
+        ctx.branch("hist.%s.same_particles" % name)
+    # -- the tracker: horizontal and vertical advection of the particles that are there
+    n = len(state["X"])
+    if n and rng.random() < 0.6:
+        hd = float(case["sp"]["hatch_day"]) if name in ("larvae", "saithe") else None
+        for i in range(n):
+            if rng.random() < 0.6:
+                state["X"][i] = min(19.0, max(1.0, state["X"][i] + rng.uniform(-1.5, 1.5)))
+                state["Y"][i] = min(19.0, max(1.0, state["Y"][i] + rng.uniform(-1.5, 1.5)))
+                lo, hi = z_band(name, case, is_egg=(hd is not None and state["age"][i] <= hd))
+                state["Z"][i] = min(hi, max(lo, state["Z"][i] + rng.choice([0.0, rng.uniform(-3, 3), rng.uniform(-30, 30)])))
+        what.append("advected"); ctx.branch("hist.%s.advected_between_steps" % name)
+    keep_in_quantifier(case, state)
+    state.timestep = state.timestep + 1
+    log.append("; ".join(what) or "nothing changed")
+    return sync_case(case, state)
+
+
+def egg_history_oracle(ctx, name, case, res, pre, cs):
+    """Eggs (egg module; eggs inside larvae / saithe) at one step of a history, from the water at the egg's position
+    when the update is called (the stub field itself, not what the module stored): egg_buoy is a salinity equivalent
+    and density increases with salinity, so an egg with egg_buoy < salinity is lighter than the water and must not
+    move down, one with egg_buoy > salinity must not move up, one with egg_buoy == salinity must stay; the movement is
+    strict where the step is above the rounding of Z; the egg module moves by dt x the sinking speed of the larvae
+    module's copy of the formula."""
+    env = case["env"]
+    b, a = res["before"], res["after"]
+    site = "ladim_plugins/%s/ibm.py" % name
+    dt = float(case["dt"])
+    X, Y, Z0 = pre["X"], pre["Y"], pre["Z"]
+    T = env.field(X, Y, Z0, "temp"); S = env.field(X, Y, Z0, "salt")
+    pred = "C16.egg.direction" if name == "egg" else "C16.%s.egg_direction" % name
+    diam = case["diam"] if name == "egg" else case["sp"]["egg_diam"]
+    for i in range(res["n"]):
+        if name != "egg" and not res["meta"]["is_egg"][i]:
+            continue
+        if not no_mixing(case, res, i):
+            continue
+        z0 = float(Z0[i]); dz = float(a["z"][i]) - z0
+        buoy = float(pre["egg_buoy"][i])
+        if name == "egg":
+            floor, ceil = 0.0, 200.0
+        elif name == "saithe":
+            floor, ceil = 0.0, float("inf")
+        else:
+            floor, ceil = float(case["sp"]["min_depth"]), float(case["sp"]["max_depth"])
+        if not (floor <= z0 <= ceil):
+            continue
+        v, rw, re_ = egg_speed(float(T[i]), float(S[i]), buoy, diam)
+        step = v * dt
+        csd = dict(cs, particle=i, Z=z0, dZ=dz, temp=float(T[i]), salt=float(S[i]), egg_buoy=buoy, egg_diam=diam, dt=dt,
+                   speed_of_larvae_copy=v)
+        ctx.branch("hist.%s.egg_judged" % name)
+        resolvable = abs(step) > 1e-9 * (1 + abs(z0))
+        if buoy == float(S[i]):
+            ctx.branch("hist.%s.egg_neutral" % name)
+            ctx.oracle(dz == 0, pred, site, "neutrally buoyant egg (egg_buoy == salinity == %r, T=%r) moved: dZ=%r"
+                       % (buoy, float(T[i]), dz), csd)
+        elif buoy < float(S[i]):
+            # lighter: never down; up, unless it is at the top of its band.  (The egg module mirrors an egg that would
+            # pass the surface back below it: |Z'| < Z still holds unless the step is more than twice the depth.)
+            mirrored = name == "egg" and z0 + step < 0
+            if not mirrored:
+                ctx.oracle(dz <= 0, pred, site, "egg lighter than the water (egg_buoy %r < salinity %r, T=%r) moved down: "
+                           "Z=%r dZ=%r" % (buoy, float(S[i]), float(T[i]), z0, dz), csd)
+                if resolvable and z0 > floor:
+                    ctx.oracle(dz < 0, pred, site, "egg lighter than the water (egg_buoy %r < salinity %r, T=%r) does not "
+                               "rise: Z=%r dZ=%r" % (buoy, float(S[i]), float(T[i]), z0, dz), csd)
+        else:
+            capped = name == "egg" and z0 + step >= 200.0 * (1 - 1e-9)        # put back to 199 m
+            if not capped:
+                ctx.oracle(dz >= 0, pred, site, "egg denser than the water (egg_buoy %r > salinity %r, T=%r) moved up: "
+                           "Z=%r dZ=%r" % (buoy, float(S[i]), float(T[i]), z0, dz), csd)
+                if resolvable and z0 < ceil:
+                    ctx.oracle(dz > 0, pred, site, "egg denser than the water (egg_buoy %r > salinity %r, T=%r) does not "
+                               "sink: Z=%r dZ=%r" % (buoy, float(S[i]), float(T[i]), z0, dz), csd)
+        if name == "egg" and 0 < z0 + step < 200.0 * (1 - 1e-9):
+            # egg module vs larvae module (sinkvel_egg on utils.density / utils.viscosity), at this step's water.
+            # 1e-9 relative: libm pow, the 1e-16 regulariser of the larvae copy; 2^-50 (|Z| + |step|): Z' = Z + W dt and
+            # dZ = Z' - Z are two roundings of at most 2^-53 (|Z| + |step|) each
+            ctx.oracle(abs(dz - step) <= 1e-9 * abs(step) + 2.0 ** -50 * (abs(z0) + abs(step)), "C16.sink_speed.copies_differ", site,
+                       "egg module moved the egg by %r in dt=%r; larvae.sinkvel_egg with utils density / viscosity at "
+                       "T=%r, S=%r, egg_buoy=%r, diameter %r gives %r m/s, i.e. %r" % (dz, dt, float(T[i]), float(S[i]), buoy, diam, v, step), csd)
+
+
+def histories(ctx, gens):
+    import random as _random
+    drv = Driver()
+    use_drv = drv.available and not getattr(ctx, "widened", False)
+    pending = []
+    for name in HIST_MODULES:
+        runner = ibmrun.MODULES[name][1]
+        for h in range(ctx.n(30, 500)):
+            case = hist_case(ctx, ctx.rng, name, gens)
+            stub = ctx.rng.random() < 0.3
+            time_key = "time" if (name == "shrimp" and stub and ctx.rng.random() < 0.4) else "timestamp"
+            state = hist_state(name, case, stub, time_key)
+            keep_in_quantifier(case, state)
+            ctx.branch("hist.%s.%s" % (name, "stub_state" if stub else "real_state"))
+            steps = ctx.rng.randrange(3, 9)
+            if ctx.tier == "thorough" and ctx.rng.random() < 0.15:
+                steps = ctx.rng.randrange(9, 25); ctx.branch("hist.%s.long_history" % name)
+            ibm = None
+            log = []
+            for s in range(steps):
+                if not len(state["X"]):
+                    break
+                seed = ctx.sub_seed(); iseed = ctx.sub_seed()
+                inject = (lambda: ibmrun.tail_injector(_random.Random(iseed), 0.1)) if ctx.rng.random() < 0.5 else (lambda: None)
+                pre = {k: v.copy() for k, v in state_arrays(state).items()}
+                twin = clone_state(state)
+                env_now = case["env"].asdict()
+                res = runner(case, seed, drv if use_drv else None, inject(), ibm=ibm, state=state)
+                ibm = res["ibm"]
+                cs = dict(module=name, history=h, step=s, changes_before_each_step=list(log), container="stub" if stub else "State",
+                          case=ibmrun.case_summary(case), env_at_this_step=env_now, state_before={k: v.tolist() for k, v in pre.items()},
+                          draws_seed=seed, injector_seed=iseed)
+                ctx.case(key=(name, "world_hist", h, s, repr(env_now), repr(pre["Z"].tolist())), nontrivial=True)
+                ctx.branch("hist.%s.step" % name)
+                if s:
+                    ctx.branch("hist.%s.later_step" % name)
+                # (1) the clauses of the property at this step
+                swim_oracle(ctx, name, case, res)
+                if name in ("egg", "larvae", "saithe"):
+                    egg_history_oracle(ctx, name, case, res, pre, cs)
+                # (2) nothing but the current state and environment enters: a fresh IBM object, same state, same draws
+                res2 = runner(case, seed, None, inject(), ibm=None, state=twin)
+                got = state_arrays(state); want = state_arrays(twin)
+                for k in sorted(want):
+                    same = k in got and got[k].shape == want[k].shape and (
+                        np.array_equal(got[k], want[k], equal_nan=True) if want[k].dtype.kind == "f" else np.array_equal(got[k], want[k]))
+                    ctx.oracle(same, "C16.%s.depends_on_history" % name, "ladim_plugins/%s/ibm.py" % name,
+                               "step %d of a history of one IBM object (changes since the previous call: %s): %s after the "
+                               "update %r, a fresh IBM object on the same state, water, time and draws gives %r"
+                               % (s, log[-1] if log else "-", k, got.get(k, np.zeros(0)).tolist(), want[k].tolist()), cs)
+                if use_drv:
+                    pending.append((name, case, res))
+                case = world_changes(ctx, ctx.rng, name, sync_case(case, state), state, log)
+    if use_drv:
+        replies = drv.run()
+        for name, case, res in pending:
+            if "finish" in res:
+                res["finish"](replies)
+            c05.compare(ctx, name, case, res, c05.KEYS[name])
+
+
 def run(ctx):
     drv = Driver()
     if getattr(ctx, "widened", False):
@@ -609,6 +1024,7 @@ def run(ctx):
     gens = make_gens(ctx)
     shrimp_time_fallback(ctx, gens["shrimp"])
     c05.run(ctx, modules=["larvae", "saithe", "salmon_lice", "shrimp", "egg"], oracle=swim_oracle, gens=gens)
+    histories(ctx, gens)
 
 
 def replay(payload):
